@@ -4,7 +4,7 @@ M: IntrospectionModes.tla -- the 3x3 table; over the whole case space the ideal 
    satisfies the table, every named deviation changes the model exactly on its trigger and violates it there.
 G: TLC enumerates every case: 9 mode pairs x {query, mutation, subscription} x every mix of field kinds
    {__schema, __type, _service{sdl}, _entities, __typename, ordinary, nested} x {static, dynamic} x entry point
-   {execute, execute_stream} x document shape (plain / inline fragment / typed fragment / named fragment,
+   {execute, execute_stream} x request-level mode set on the Request / by an extension's prepare_request hook x document shape (plain / inline fragment / typed fragment / named fragment,
    forward / reversed order, aliases) and the abstract document of each.
 harness: c19 builds the static and dynamic federation schemas with the schema-level mode, sets the request-level
    mode, executes (streams polled by hand) and logs response data and every user resolver invoked.
@@ -16,11 +16,11 @@ import vlib
 SCHEMA = os.path.join(vlib.ROOT, "schemas", "c19.json")
 
 
-def cfg_text(max_kinds, max_wrapped, wraps, orders, aliases, tail):
+def cfg_text(max_kinds, max_wrapped, wraps, orders, aliases, hook_wraps, tail):
     return ("CONSTANT MaxKinds = %d\nCONSTANT MaxKindsWrapped = %d\nCONSTANT Wraps = {%s}\nCONSTANT Orders = {%s}\n"
-            "CONSTANT Aliases = {%s}\nINIT Init\nNEXT Next\n%s" %
+            "CONSTANT Aliases = {%s}\nCONSTANT HookWraps = {%s}\nINIT Init\nNEXT Next\n%s" %
             (max_kinds, max_wrapped, ", ".join('"%s"' % w for w in wraps), ", ".join('"%s"' % o for o in orders),
-             ", ".join(aliases), tail))
+             ", ".join(aliases), ", ".join('"%s"' % w for w in hook_wraps), tail))
 
 
 def body(c):
@@ -30,9 +30,9 @@ def body(c):
     gcfg = c.path("Gen.cfg")
     with open(gcfg, "w") as f:
         if c.quick:
-            f.write(cfg_text(7, 1, wraps, ["fwd", "rev"], ["FALSE"], "INVARIANT ModelChecked\nINVARIANT Emit\n"))
+            f.write(cfg_text(7, 1, wraps, ["fwd"], ["FALSE"], ["none"], "INVARIANT ModelChecked\nINVARIANT Emit\n"))
         else:
-            f.write(cfg_text(7, 7, wraps, ["fwd", "rev"], ["FALSE", "TRUE"], "INVARIANT Emit\n"))
+            f.write(cfg_text(7, 7, wraps, ["fwd", "rev"], ["FALSE", "TRUE"], ["none", "inline"], "INVARIANT Emit\n"))
     if not c.quick:
         m = vlib.run_tlc("gql/IntrospectionModes.tla", "gql/MC_IntrospectionModes.cfg", env={"SCHEMA": SCHEMA}, workers=8, timeout=1800)
         if m.invariant_violated:
@@ -71,12 +71,12 @@ def body(c):
     for o in obs:
         vd, drift = verdicts[o["id"]]
         blocked = o["s"] != "Enabled" or o["r"] != "Enabled"
-        key = {k: o[k] for k in ("s", "r", "op", "flavour", "via", "wrap", "order", "alias", "kinds")}
+        key = {k: o[k] for k in ("s", "r", "op", "flavour", "via", "rvia", "wrap", "order", "alias", "kinds")}
         c.count_case(key, nontrivial=blocked or "__typename" in o["kinds"])
-        cells.add((o["s"], o["r"], o["op"], o["flavour"]))
+        cells.add((o["s"], o["r"], o["op"], o["flavour"], o["rvia"]))
         slim = dict(key)
         slim.update({"text": o["text"], "obs": o["obs"]})
-        c.verdict(vd, slim, "mode table violated (%s) s=%s r=%s %s %s: %s" % (vd, o["s"], o["r"], o["flavour"], o["via"], o["text"]))
+        c.verdict(vd, slim, "mode table violated (%s) s=%s r=%s(set by %s) %s %s: %s" % (vd, o["s"], o["r"], o["rvia"], o["flavour"], o["via"], o["text"]))
         if drift:
             c.drift("case %s (%s s=%s r=%s %s): implementation model differs in what it %s: %s" %
                     (o["id"], o["flavour"], o["s"], o["r"], o["via"], drift, o["text"]))
@@ -90,18 +90,18 @@ def body(c):
     if len(tn) != 9 * 2 * 2:
         raise vlib.ToolError("vacuity: a root __typename was demanded in only %d of 36 (mode pair, query/mutation, flavour) cells" % len(tn))
     c.cov["typename_demanded_cases"] = len(typename_cells)
-    if len(cells) != 9 * 3 * 2:
-        raise vlib.ToolError("vacuity: only %d of 54 (mode pair, operation, flavour) cells were exercised" % len(cells))
+    if len(cells) != 9 * 3 * 2 * 2:
+        raise vlib.ToolError("vacuity: only %d of 108 (mode pair, operation, flavour, request-mode route) cells were exercised" % len(cells))
     if positive["meta"] == 0 or positive["resolver"] == 0:
         raise vlib.ToolError("vacuity: with both modes Enabled no metadata / no resolver invocation was ever observed: %s" % positive)
     c.cov["traces_validated_against_impl"] = len(obs)
     c.cov["exhaustive"] = True
     c.cov["rule"] = ("G: TLC enumerates the whole case space of IntrospectionModes.tla: 3x3 (schema mode, request mode) x {query, mutation, "
-                     "subscription} x {static, dynamic} x entry point {execute, execute_stream} x every non-empty mix of the field kinds "
+                     "subscription} x {static, dynamic} x entry point {execute, execute_stream} x request-level mode set {on the Request, by an extension's prepare_request hook (%s)} x every non-empty mix of the field kinds "
                      "{__schema, __type, _service{sdl}, _entities, __typename, ordinary, nested} valid for the root (query-only kinds as single "
                      "probes on the other roots) x order {forward, reversed} x wrapper {none, inline fragment, typed inline fragment, named "
                      "fragment}%s: %d cases, all executed; non-trivial = some mode is not Enabled or the document selects __typename; "
-                     "distinct by the case tuple" % (" (quick: wrapped documents hold one kind, no aliases)" if c.quick else " x {no alias, aliases}", len(cases)))
+                     "distinct by the case tuple" % ("unwrapped documents" if c.quick else "unwrapped and inline-fragment documents", " (quick: forward order, wrapped documents hold one kind, no aliases)" if c.quick else " x {no alias, aliases}", len(cases)))
     for o in [x for x in obs if x["s"] == "Disabled" and "_service" in x["kinds"]][:1] + [x for x in obs if x["r"] == "IntrospectionOnly" and x["op"] == "subscription"][:1] + obs[:1]:
         c.sample({"s": o["s"], "r": o["r"], "flavour": o["flavour"], "via": o["via"], "text": o["text"], "resps": [r["data"] for r in o["obs"]["resps"]][:2],
                   "log": o["obs"]["log"], "verdict": verdicts[o["id"]][0]})
